@@ -85,6 +85,20 @@ PKGDIR = os.path.join(HARNESS, 'c17pkg')
 ARG_SRC = {'number': '\\magstep 2\\relax', 'dimen': '\\vskip 3pt\\relax', 'numreg': '\\magstep\\pretolerance\\relax',
            'dimenreg': '\\vskip\\maxdepth\\relax', 'gluereg': '\\hskip\\topskip\\relax', 'tok': '\\let\\vfa=b', 'args': '\\def\\vfb#1{x}',
            'any': '\\openout\\vfc=bar ', 'optnone': '\\linebreak', 'normal': '\\textbf{}'}
+# spellings of literal quantities: every unit (also `true` units, with and without blanks), signs, decimals, stretch and shrink
+DIMEN_SP = ['3pt', '3truept', '2truecm', '1truein', '1.5em', '2ex', '3 true mm', '-.5pc', '1bp', '12dd', '1cc', '65536sp', '+ 2pt', '0.75in',
+            '1 truepc', '-1truein', '2 cm', '1,5mm']
+GLUE_SP = ['3pt', '2truecm plus 1fil', '1truein minus 2truept', '3pt plus 1fill minus 1filll', '2em plus 3pt', '1truemm plus 1truemm minus 1 true sp',
+           '0pt plus 1fil', '-1truein']
+ASSIGN_SP = {'d': ['%dpt', '%dtruept', '%d.0pt', '%d truept', '%d.pt'], 'n': ['%d'], 'g': ['%dpt', '%dtruept', '%dpt plus 1fil', '%dtruept plus 2truept minus 1truept'],
+             'm': ['%dmu', '%dmu plus 1mu']}
+
+
+def spelled(kind, k):
+    t = DIMEN_SP if kind == 'dimen' else GLUE_SP
+    return t[int(k) % len(t)]
+
+
 ARG_EL = {'magstep': 'number', 'vskip': 'dimen', 'let': 'tok', 'def': 'args', 'openout': 'any', 'linebreak': 'optnone', 'textbf': 'normal'}
 
 # ---------------------------------------------------------------- the class-level attributes
@@ -303,7 +317,9 @@ def render_events(words):
         elif w == 'lb': src.append('\\begin{itemize}')
         elif w == 'le': src.append('\\end{itemize}')
         elif w == 'it': src.append('\\item ')
-        elif p[0] == 'as': src.append('\\%s=%s%s\\relax' % (REGS[int(p[1])], p[2], UNIT[FAM[int(p[1])]]))
+        elif p[0] == 'as':
+            sp = ASSIGN_SP[FAM[int(p[1])]]
+            src.append('\\%s=%s\\relax' % (REGS[int(p[1])], sp[int(p[3]) % len(sp)] % int(p[2]) if len(p) > 3 else p[2] + UNIT[FAM[int(p[1])]]))
         elif p[0] == 'cp': src.append('\\%s=\\%s\\relax' % (REGS[int(p[1])], REGS[int(p[2])]))
         elif p[0] == 'us':
             r = int(p[1])
@@ -311,8 +327,11 @@ def render_events(words):
             if depth == 0:
                 uses.append(('us', r))
         elif p[0] == 'ar':
-            src.append(ARG_SRC[p[1]])
-            if depth == 0 and p[1] in ('number', 'dimen', 'numreg', 'dimenreg', 'gluereg'):
+            if p[1] in ('dimen', 'glue') and len(p) > 2:
+                src.append(('\\vskip %s\\relax' if p[1] == 'dimen' else '\\hskip %s\\relax') % spelled(p[1], p[2]))
+            else:
+                src.append(ARG_SRC[p[1]])
+            if depth == 0 and p[1] in ('number', 'dimen', 'glue', 'numreg', 'dimenreg', 'gluereg'):
                 uses.append(('ar', p[1]))
         elif p[0] == 'dc': src.append('\\documentclass{%s}' % p[1])
         elif w == 'ix': src.append('\\printindex')
@@ -361,7 +380,7 @@ def run_event_doc(words, base):
     def flush():
         if text:
             s = ''.join(text)
-            m = re.fullmatch(r'=(-?\d+)(pt|mu)?', s)
+            m = re.fullmatch(r'=(-?\d+)(?:\.0?)?(?:true)?(?:pt|mu)?(?:plus\S*)?', s)
             out.append('tx:' + m.group(1) if m else 'tx:=' if s == '=' else 'tx?' + s)
             del text[:]
     try:
@@ -422,6 +441,8 @@ def impl(case, aux):
         return impl_ccache(case)
     if case.stream == 'holders':
         return impl_holders(case)
+    if case.stream == 'kpse':
+        return impl_kpse(case)
     words = case.line.split()
     st, docs = words[1:words.index('|')], words[words.index('|') + 1:]
     hist, cur = [], []
@@ -445,7 +466,12 @@ def impl(case, aux):
 
 def judge(o):
     o.corr_ok = (o.impl == o.model)
-    if o.case.stream == 'holders':
+    if o.case.stream == 'kpse':
+        o.prop_ok = (o.impl == o.spec)
+        if not o.prop_ok:
+            o.note = ('a file lookup does not give what the request (name, directory of the file being read, TEXINPUTS) determines, or '
+                      'TEXINPUTS is not restored: the answer depends on earlier lookups of the interpreter')
+    elif o.case.stream == 'holders':
         o.prop_ok = (o.impl == o.spec)
         if not o.prop_ok:
             o.note = ('the holders of two documents share mutable objects: what one document writes there the other one reads; objects: %s'
@@ -468,13 +494,16 @@ def judge(o):
                 ok = ok and x == y
         o.prop_ok = ok
         if not ok:
-            o.note = 'a document of the history differs from the same document alone in a fresh interpreter, or class-level state is not restored'
+            o.note = ('a document of the history differs from the same document alone in a fresh interpreter, or class-level state is not restored'
+                      ' | the documents as LaTeX: ' + ' ;; '.join(render_events(d.split())[0] for d in o.case.line.split(' | ')[1].split(' ; ')))
 
 
 TOUCH = ('D', 'bo', 'lb', 'le', 'if', 'ar:', 'dc:', 'as:', 'nc:')
 
 
 def nontrivial(o):
+    if o.case.stream == 'kpse':
+        return len({w for w in o.spec.replace(':e1', '').split(' ; ')}) >= 2
     if o.case.stream == 'holders':
         return o.case.meta['mode'] != 'ff'
     if o.case.stream == 'ccache':
@@ -745,7 +774,98 @@ def impl_holders(case):
     return 'shared:' + (','.join(map(str, sorted(seen_b))) or '-')
 
 
+# ---------------------------------------------------------------- file lookup: TeX.kpsewhich (stream kpse)
+
+KP_DIRS, KP_NAMES = 4, 4
+
+
+def gen_kpse(rng):
+    """a file system (directories 0 = working directory, 1..4; names 1..4) and a sequence of lookups made by several documents of one
+    interpreter: same names asked from files in different directories, different TEXINPUTS, absolute names, missing files"""
+    files = sorted({(rng.randint(0, KP_DIRS), rng.randint(1, KP_NAMES)) for _ in range(rng.randint(0, 9))})
+    reqs = []
+    for _ in range(rng.randint(2, 9)):
+        ti = [rng.randint(0, KP_DIRS) for _ in range(rng.choice([0, 0, 0, 1, 2, 3]))]
+        if ti == [0]:
+            ti = []                       # a single empty entry is the empty string: the same as unset
+        src = '-' if rng.random() < 0.1 else str(rng.randint(0, KP_DIRS))
+        name = rng.randint(1, KP_NAMES) if rng.random() < 0.9 else KP_NAMES + 1
+        reqs.append('%s %s %d %d' % (','.join(map(str, ti)) or '-', src, int(rng.random() < 0.06), name))
+    return Case('kpse', 'F%s | %s' % (','.join('%d.%d' % f for f in files) or '-', ' ; '.join(reqs)), None)
+
+
+def impl_kpse(case):
+    from plasTeX.TeX import TeX
+    head, body = case.line.split(' | ')
+    files = [] if head[1:] == '-' else [tuple(map(int, f.split('.'))) for f in head[1:].split(',')]
+    cwd, ti0 = os.getcwd(), os.environ.get('TEXINPUTS')
+    import hashlib
+    salt = hashlib.sha256(case.line.encode()).hexdigest()[:8]      # file names of this case only: a case is a self-contained history
+    root = os.path.realpath(tempfile.mkdtemp(prefix='c17k-'))
+    dirs = [os.path.join(root, 'd%d' % i) for i in range(KP_DIRS + 1)]
+    out = []
+    try:
+        for d in dirs:
+            os.mkdir(d)
+            open(os.path.join(d, 'cur.tex'), 'w').write('x')
+        for d, n in files:
+            open(os.path.join(dirs[d], 'n%d_%s.tex' % (n, salt)), 'w').write('file %d of directory %d' % (n, d))
+        os.chdir(dirs[0])
+        if 'kdoc' not in _K:
+            _K['kdoc'] = new_document()[0]
+        for q in body.split(' ; '):
+            ti, src, ab, name = q.split()
+            tistr = '' if ti == '-' else os.pathsep.join('' if x == '0' else dirs[int(x)] for x in ti.split(','))
+            if tistr:
+                os.environ['TEXINPUTS'] = tistr
+            else:
+                os.environ.pop('TEXINPUTS', None)
+            tex = TeX(_K['kdoc'])
+            fh = None
+            if src != '-':       # the file being read lives in directory src (a relative name for the working directory)
+                fh = open('cur.tex' if src == '0' else os.path.join(dirs[int(src)], 'cur.tex'))
+                tex.input(fh)
+            fname = 'n%s_%s.tex' % (name, salt)
+            if ab == '1':
+                fname = os.path.join(root, 'elsewhere', fname)
+            try:
+                r = tex.kpsewhich(fname)
+                if r == fname and ab == '1':
+                    res = 'as'
+                else:
+                    dd = os.path.dirname(os.path.realpath(os.path.abspath(r)))
+                    res = 'f%d' % dirs.index(dd) if dd in dirs and os.path.basename(r) == fname else 'f?' + r.replace(root, '')
+            except FileNotFoundError:
+                res = 'nf'
+            except Exception as e:
+                res = canon_exc(e)
+            finally:
+                if fh:
+                    fh.close()
+            out.append('%s:e%d' % (res, int(os.environ.get('TEXINPUTS', '') == tistr)))
+    finally:
+        os.chdir(cwd)
+        if ti0 is None:
+            os.environ.pop('TEXINPUTS', None)
+        else:
+            os.environ['TEXINPUTS'] = ti0
+        shutil.rmtree(root, ignore_errors=True)
+    return ' ; '.join(out)
+
+
 # ---------------------------------------------------------------- generation of event documents
+
+def gen_arg(rng):
+    ty = rng.choice(list(ARG_SRC))
+    if ty == 'dimen' and rng.random() < 0.8:       # (literal glue is only read by glue-register assignments: ASSIGN_SP)
+        return 'ar:%s:%d' % (ty, rng.randrange(40))        # a spelling of the literal: units incl. true units, signs, stretch/shrink
+    return 'ar:' + ty
+
+
+def gen_assign(rng):
+    w = 'as:%d:%d' % (rng.randrange(len(REGS)), rng.randint(-3, 40))
+    return w + ':%d' % rng.randrange(12) if rng.random() < 0.6 else w
+
 
 def gen_inner(rng, depth):
     """content of an \\hbox{..} argument"""
@@ -756,7 +876,7 @@ def gen_inner(rng, depth):
         elif r < 0.4: out += ['D', 'D', 'pm', 'D', 'D']
         elif r < 0.5: out.append('D')
         elif r < 0.6: out.append('us:%d' % rng.randrange(8))
-        elif r < 0.75: out.append('ar:' + rng.choice(list(ARG_SRC)))
+        elif r < 0.75: out.append(gen_arg(rng))
         elif r < 0.85: out.append('pm')
         elif depth < 2: out += ['bo'] + gen_inner(rng, depth + 1) + ['bc']
     return out
@@ -782,7 +902,7 @@ def gen_body(rng, depth, leaky, inlist, havecls):
             out.append('le')
         elif r < 0.58 and inlist: out.append('it')
         elif r < 0.66: out.append('us:%d' % rng.randrange(8))
-        elif r < 0.76: out.append('ar:' + rng.choice(list(ARG_SRC)))
+        elif r < 0.76: out.append(gen_arg(rng))
         elif r < 0.81: out.append('nd')
         elif r < 0.86: out.append('if')
         elif r < 0.90: out.append('pm')
@@ -790,7 +910,7 @@ def gen_body(rng, depth, leaky, inlist, havecls):
         elif r < 0.96: out.append('uc:%d' % rng.choice([90, 89, 99, 108, 81]))
         elif leaky:
             fam = rng.choice(FAMILIES)
-            out.append(rng.choice(['as:%d:%d' % (rng.randrange(len(REGS)), rng.randint(-3, 40)), 'as:0:%d' % rng.randint(1, 9),
+            out.append(rng.choice([gen_assign(rng), 'as:0:%d' % rng.randint(1, 9),
                                    'cp:%d:%d' % (rng.choice(fam), rng.choice(fam)), 'cp:%d:%d' % (rng.choice(fam), rng.choice(fam)),
                                    'nc:%d' % rng.choice([90, 89])]))
     return out
@@ -856,7 +976,7 @@ def generate(ctx):
                 for _ in range(rng.randint(1, 2)):
                     fam = rng.choice(FAMILIES)
                     src = [q for q in fam if q not in dirty_r] or [None]
-                    ev = rng.choice(['as:%d:%d' % (rng.randrange(len(REGS)), rng.randint(-3, 40)), 'nc:%d' % rng.choice([90, 89])] +
+                    ev = rng.choice([gen_assign(rng), 'nc:%d' % rng.choice([90, 89])] +
                                     (['cp:%d:%d' % (rng.choice(fam), rng.choice(src))] if src[0] is not None else []))
                     d.insert(rng.randint(1 if d and d[0].startswith('dc:') else 0, len(d)), ev)
                 depth, keep = 0, []          # (not inside boxes: the harness does not look into them)
@@ -876,6 +996,8 @@ def generate(ctx):
         yield gen_ccache(rng, 'L' if i % 2 == 0 else 'A')
     for i in range(40 if ctx.tier == 'quick' else 300):
         yield gen_holders(rng, i)
+    for i in range(200 if ctx.tier == 'quick' else 3000):
+        yield gen_kpse(rng)
 
 
 WITNESS = {   # leak -> (history, needs which variant bit)
@@ -913,6 +1035,17 @@ FIXED_WITNESSES = ['D6d-article-class', 'syspath-packages-dir']
 
 def shrink(ctx, o, evaluate):
     """drop whole documents, then single events, while the property still fails"""
+    if o.case.stream == 'kpse':         # drop lookups while the property still fails
+        head, body = o.case.line.split(' | ')
+        reqs, best, improved = body.split(' ; '), o, True
+        while improved and len(reqs) > 1:
+            improved = False
+            cs = [Case('kpse', '%s | %s' % (head, ' ; '.join(reqs[:i] + reqs[i + 1:])), None, 'shrink') for i in range(len(reqs))]
+            for i, r in enumerate(evaluate(cs)):
+                if not r.prop_ok:
+                    best, reqs, improved = r, reqs[:i] + reqs[i + 1:], True
+                    break
+        return best
     if o.case.stream == 'ccache':       # drop lookups while the property still fails
         head, seq = o.case.line.split(' | ')
         seq, best, improved = seq.split(), o, True
@@ -976,6 +1109,30 @@ def canon_text(s):
     return re.sub(r'\ba(\d{10})\b', lambda m: 'ID%d' % seen.setdefault(m.group(1), len(seen)), s)
 
 
+FILE_MARK = '%%C17FILE '
+
+
+def split_project(src):
+    """a generated document is a project: optional leading blocks `%%C17FILE name` … `%%C17END` (files next to main.tex), then main.tex"""
+    files = {}
+    while src.startswith(FILE_MARK):
+        head, rest = src.split('\n', 1)
+        body, src = rest.split('%%C17END\n', 1)
+        files[head[len(FILE_MARK):].strip()] = body
+    return src, files
+
+
+def write_project(d, src):
+    main, files = split_project(src)
+    proj = os.path.join(d, 'proj')
+    os.makedirs(proj)
+    os.makedirs(os.path.join(d, 'work'))
+    for name, body in files.items():
+        open(os.path.join(proj, name), 'w', encoding='utf-8').write(body)
+    open(os.path.join(proj, 'main.tex'), 'w', encoding='utf-8').write(main)
+    return proj, files
+
+
 def run_compile_doc(src):
     """the entry point of the `plastex` command: plasTeX.Compile.run on a file, output directory, XML dump, HTML5 renderer"""
     import io, contextlib
@@ -986,9 +1143,10 @@ def run_compile_doc(src):
     d = tempfile.mkdtemp(prefix='c17-')
     try:
         d = os.path.realpath(d)
-        os.chdir(d)
-        open(os.path.join(d, 'job.tex'), 'w', encoding='utf-8').write(src)
+        proj, _ = write_project(d, src)
+        os.chdir(proj)                       # `plastex main.tex` run inside the project directory
         config = defaultConfig()
+        config['general']['load-tex-packages'] = True
         config['general']['packages-dirs'] = [PKGDIR]
         config['images']['imager'] = 'none'
         config['images']['vector-imager'] = 'none'
@@ -998,15 +1156,15 @@ def run_compile_doc(src):
         config['general']['renderer'] = 'HTML5'
         try:
             with contextlib.redirect_stdout(io.StringIO()):
-                Compile.run('job.tex', config)
+                Compile.run('main.tex', config)
             out = os.path.join(d, 'out')
-            res['xml'] = canon_text(open(os.path.join(out, 'job.xml'), encoding='utf-8').read())
+            res['xml'] = canon_text(open(os.path.join(out, 'main.xml'), encoding='utf-8').read().replace(d, 'TMPDIR'))
             for f in sorted(os.listdir(out)):
                 if f.endswith('.html'):
-                    res['files'][f] = canon_text(open(os.path.join(out, f), encoding='utf-8', errors='replace').read())
+                    res['files'][f] = canon_text(open(os.path.join(out, f), encoding='utf-8', errors='replace').read().replace(d, 'TMPDIR'))
         except Exception as e:
             res['err'] = type(e).__name__ + ': ' + str(e)[:120]
-        res['snap'] = snap_str(read_state()) + ' ' + proc_state(os.path.realpath(d))      # before this function restores the directory itself
+        res['snap'] = snap_str(read_state()) + ' ' + proc_state(proj)      # before this function restores the directory itself
     finally:
         os.chdir(cwd)
         shutil.rmtree(d, ignore_errors=True)
@@ -1021,15 +1179,22 @@ def run_latex_doc(src, render):
     cwd = os.getcwd()
     d = tempfile.mkdtemp(prefix='c17-')
     try:
-        os.chdir(d)
+        d = os.path.realpath(d)
+        proj, files = write_project(d, src)
+        work = os.path.join(d, 'work')
+        os.chdir(work)                       # the working directory is NOT the project directory
         doc, config = new_document()
-        config['files']['directory'] = d
-        doc.userdata['working-dir'] = d
-        tex = TeX(doc)
-        tex.input(src)
+        config['files']['directory'] = work
+        config['general']['load-tex-packages'] = True
+        doc.userdata['working-dir'] = work
+        if files:                            # file-based document: TeX(doc, file=…/proj/main.tex), files found next to it
+            tex = TeX(doc, file=os.path.join(proj, 'main.tex'))
+        else:
+            tex = TeX(doc)
+            tex.input(split_project(src)[0])
         try:
             tex.parse()
-            res['xml'] = canon_text(doc.toXML())
+            res['xml'] = canon_text(doc.toXML().replace(d, 'TMPDIR'))
             refs = []
             for name in ('ref', 'pageref'):
                 for n in doc.getElementsByTagName(name):
@@ -1040,11 +1205,11 @@ def run_latex_doc(src, render):
             if render:
                 from plasTeX.Renderers.HTML5 import Renderer
                 Renderer().render(doc)
-                for f in sorted(os.listdir(d)):
+                for f in sorted(os.listdir(work)):
                     if f.endswith('.html'):
-                        res['files'][f] = canon_text(open(os.path.join(d, f), encoding='utf-8', errors='replace').read())
+                        res['files'][f] = canon_text(open(os.path.join(work, f), encoding='utf-8', errors='replace').read().replace(d, 'TMPDIR'))
         except Exception as e:
-            res['err'] = type(e).__name__ + ': ' + str(e)[:120]
+            res['err'] = type(e).__name__ + ': ' + str(e)[:120].replace(d, 'TMPDIR')
     finally:
         os.chdir(cwd)
         shutil.rmtree(d, ignore_errors=True)
@@ -1077,7 +1242,9 @@ class LatexGen:
         if r < 0.61: return '\\hbox{%s $%s$ %s}' % (self.w(), self.math(), self.w())
         if r < 0.65: return '\\ifthenelse{%d<%d}{%s}{%s}' % (self.rng.randint(0, 5), self.rng.randint(0, 5), self.w(), self.w())
         if r < 0.69: return '\\ifthenelse{\\(1<2\\) \\and \\not \\(3<2\\)}{$%s$}{%s}' % (self.math(), self.w())
-        if r < 0.73: return '\\hskip\\%s\\relax ' % self.rng.choice(SKIPREGS)
+        if r < 0.71: return '\\hskip\\%s\\relax ' % self.rng.choice(SKIPREGS)
+        if r < 0.73: return self.rng.choice(['\\hskip %s\\relax ' % self.rng.choice(DIMEN_SP[:-1]), '\\vspace{%s}' % self.rng.choice(DIMEN_SP[:-1]),
+                                             '\\hspace*{%s}' % self.rng.choice(DIMEN_SP[:-1]), '\\kern %s\\relax ' % self.rng.choice(DIMEN_SP[:-1])])
         if r < 0.76: return '\\openout\\vout=%s ' % self.w()
         if r < 0.80: return '\\mycmd{%s}' % self.w()
         if r < 0.83: return '\\stepcounter{mycnt}\\themycnt '
@@ -1086,7 +1253,8 @@ class LatexGen:
         if r < 0.92: return '\\ref{L%d}' % self.rng.randrange(self.nlabels + 1)     # backward, forward and undefined references
         if r < 0.94 and self.leaky:
             i = self.rng.randrange(len(REGS))
-            return '\\%s=%d%s\\relax ' % (REGS[i], self.rng.randint(1, 30), UNIT[FAM[i]])
+            sp = self.rng.choice(ASSIGN_SP[FAM[i]])
+            return '\\%s=%s\\relax ' % (REGS[i], sp % self.rng.randint(1, 30))
         if r < 0.96 and self.leaky:      # a register copied from another one of its family (count, dimen, glue, math glue)
             fam = self.rng.choice(FAMILIES)
             return '\\%s=\\%s\\relax ' % (REGS[self.rng.choice(fam)], REGS[self.rng.choice(fam)])
@@ -1188,7 +1356,26 @@ class LatexGen:
             body.append('\\tableofcontents\n')
         if rng.random() < 0.3:
             body.append('\\printindex\n')
+        # a project: files next to main.tex that it reads by relative name (the same few names in every project, other contents)
+        files = {}
+        if rng.random() < 0.45:
+            for name in rng.sample(['intro', 'part1', 'body'], rng.randint(1, 2)):
+                files[name + '.tex'] = '%s %s\n\n%s' % (name, self.para(), self.block(2) if rng.random() < 0.5 else '')
+                body.insert(rng.randint(0, len(body)), '\\input{%s}\n' % (name if rng.random() < 0.7 else name + '.tex'))
+        if rng.random() < 0.15:
+            files['mystyle.sty'] = '\\newcommand{\\projname}{%s}\\newcommand{\\projmark}[1]{<#1:%s>}\n' % (self.w(), self.w())
+            pre += '\\usepackage{mystyle}\n'
+            body.append('Project \\projname\\ \\projmark{%s}.\n\n' % self.w())
+        if rng.random() < 0.15:
+            files['fig.png'] = 'PNG ' + self.w()
+            if 'graphicx' not in self.pkgs:
+                pre += '\\usepackage{graphicx}\n'
+            body.append('\\includegraphics{fig}\n\n')
+        if rng.random() < 0.15:
+            files['main.bbl'] = '\\begin{thebibliography}{9}\n\\bibitem{B0} %s\n\\bibitem{K1} %s\n\\end{thebibliography}\n' % (self.para(), self.w())
+            body.append('As shown in \\cite{K1}.\n\\bibliography{refs}\n')
         src = pre + '\\begin{document}\n' + ''.join(body)
+        src = ''.join('%s%s\n%s%s%%%%C17END\n' % (FILE_MARK, n, files[n], '' if files[n].endswith('\n') else '\n') for n in sorted(files)) + src
         if self.openend:
             src += rng.choice(['text $x+', '\\begin{itemize}\\item a \\begin{enumerate}\\item b', 'a $$y', '\\hbox{q $z', '\\begin{enumerate}\\item $x',
                                '\\(x', '\\begin{description}\\item[a] b\n'])
